@@ -47,6 +47,8 @@ From CG Require Import Model.EmitData.
 From CG Require Import Spec.InvocationsSub.
 From CG Require Import Model.Compiler.
 From CG Require Import Model.Diag.
+From CG Require Import Model.Main.
+From CG Require Import Spec.Undercut.
 (* add new Require lines above this line *)
 Require Import ExtrOcamlBasic ExtrOcamlString.
 Extraction Language OCaml.
@@ -73,6 +75,7 @@ Separate Extraction
   KnownC01.greedy_shadow
   Domain.C01_domain
   Domain.C01_env_ok
+  Domain.C01_tail_only
   Ambig.find
   Quote.make_string_constant
   ShellDQ.read
@@ -167,9 +170,12 @@ Separate Extraction
   EmitData.data_of_dfa
   InvocationsSub.spec_run_sw
   Compiler.compile_bash
+  Compiler.compile_data
   Compiler.mkoracles
   Diag.render
   Diag.error_messages
   Diag.warning_messages
+  Main.run
+  Undercut.undercut
   (* add new roots above this line *)
   Prelude.pow2.
